@@ -162,6 +162,7 @@ class FnView:
         self._rs = {}
         self._wd = {}
         self._ks = {}
+        self._cw = None
 
     # -- CFG ---------------------------------------------------------------------------
     def succs(self, b):
@@ -493,8 +494,54 @@ class FnView:
                 if rest is None:
                     continue
                 out |= self._origins_call(t, rest, taint, visiting, d[1], (d[1], len(self.blocks[d[1]]["s"])))
+        # writes performed by closures that captured `&mut l`
+        if getattr(self, "model", None) is not None and len(visiting) < 60:
+            out |= self._closure_write_origins(l, proj, taint, at)
         if not visiting - {(l, proj)}:
             self._origin_cache[key] = out
+        return out
+
+    def _closure_write_origins(self, l, proj, taint, at):
+        out = set()
+        cw = self._cw
+        if cw is None:
+            cw = []
+            for cb, cpath, ops in self.closures_created():
+                if cpath not in self.model.fnsrc:
+                    continue
+                for k, op in enumerate(ops):
+                    if op["k"] not in ("copy", "move"):
+                        continue
+                    r = op["pl"]["l"]
+                    for d in self.defs().get(r, []):
+                        if d[0] == "s" and d[3]["rv"]["r"] == "ref" and d[3]["rv"].get("mut") and not d[3]["rv"]["pl"]["p"]:
+                            cw.append((cb, cpath, k, d[3]["rv"]["pl"]["l"]))
+            self._cw = cw
+        for cb, cpath, k, target in cw:
+            if target != l:
+                continue
+            if at is not None and not (at[0] == cb or at[0] in self.reach_strict(cb)):
+                continue
+            cv = self.model.view(cpath)
+            for b, i, s in cv.iter_stmts():
+                lhs = s["lhs"]
+                if "*" not in lhs["p"]:
+                    continue
+                F = cv._named_fields(lhs["p"])
+                if lhs["l"] == 1:
+                    if not F or F[0] != str(k):
+                        continue
+                    F = F[1:]
+                else:
+                    base = cv.origins_of_place({"l": lhs["l"], "p": []}, at=(b, i))
+                    if not any(o.kind == "param" and o.a == 1 and tuple(o.proj) == (str(k),) for o in base):
+                        continue
+                rest = self._match_prefix(F, proj)
+                if rest is None:
+                    continue
+                sub = cv._origins_rvalue(s["rv"], rest, taint, frozenset(), b, i, (b, i))
+                from .guards import resolve
+                out |= resolve(self.model, ((self.path, cb, "closure"),), cv, sub, taint=taint)
         return out
 
     @staticmethod
